@@ -5743,6 +5743,9 @@ class ConstControlT {
 	template <typename, typename, typename, typename...>
 	friend struct O_;
 
+	template <typename, typename, Prong, typename...>
+	friend struct OS_;
+
 	template <typename, typename>
 	friend class R_;
 
@@ -7550,6 +7553,9 @@ class EventControlT final
 {
 	template <typename, typename>
 	friend class R_;
+
+	template <typename, typename, Prong, typename...>
+	friend struct OS_;
 
 	template <typename, typename>
 	friend struct PreReactWrapperT;
@@ -12996,7 +13002,9 @@ OS_<TN_, TA_, NP_, TI_, TR_...>::widePreReact(EventControl& control,
 {
 	TaskStatus status;
 	status |= Initial  ::deepPreReact(control, event);
-	status |= Remaining::widePreReact(control, event);
+
+	if (!control._consumed)
+		status |= Remaining::widePreReact(control, event);
 
 	return status;
 }
@@ -13010,7 +13018,9 @@ OS_<TN_, TA_, NP_, TI_, TR_...>::wideReact(EventControl& control,
 {
 	TaskStatus status;
 	status |= Initial  ::deepReact(control, event);
-	status |= Remaining::wideReact(control, event);
+
+	if (!control._consumed)
+		status |= Remaining::wideReact(control, event);
 
 	return status;
 }
@@ -13024,7 +13034,9 @@ OS_<TN_, TA_, NP_, TI_, TR_...>::widePostReact(EventControl& control,
 {
 	TaskStatus status;
 	status |= Initial  ::deepPostReact(control, event);
-	status |= Remaining::widePostReact(control, event);
+
+	if (!control._consumed)
+		status |= Remaining::widePostReact(control, event);
 
 	return status;
 }
@@ -13037,7 +13049,9 @@ OS_<TN_, TA_, NP_, TI_, TR_...>::wideQuery(ConstControl& control,
 										   TEvent& event) const noexcept
 {
 	Initial  ::deepQuery(control, event);
-	Remaining::wideQuery(control, event);
+
+	if (!control._consumed)
+		Remaining::wideQuery(control, event);
 }
 
 #if HFSM2_PLANS_AVAILABLE()
